@@ -15,7 +15,7 @@ CONSTANTS
   Readers <- NoReaders
   MaxReads = 0
   MaxFaults = 0
-  CrashMode = "idle"
+  CrashMode = "steps"
   PowerLoss = FALSE
   MaxCrash = 1
   FlushModes <- FlushBoth
